@@ -274,6 +274,21 @@ func runReopen(o *Opts) {
 						break
 					}
 				}
+				// ---- re-open through a path with a symbolic link in it: the caller's spelling is the root ----
+				via := filepath.Join(caseDir, "via")
+				if err := os.Symlink(target, via); err == nil {
+					if b3, err := sourcebundle.OpenDir(via); err != nil {
+						c.Viol = append(c.Viol, viol("C09", "a finished bundle does not open through a symbolic link to its directory: "+err.Error()))
+					} else {
+						obs3 := observeBundle(b3, via)
+						if d := diffObs(obs0, obs3); d != "" {
+							c.Viol = append(c.Viol, viol("C09", "bundle re-opened through a symbolic link differs from the one returned by Close: "+d))
+						} else if d := diffList(look0, lookupsOf(b3, via, obs3)); d != "" {
+							c.Viol = append(c.Viol, viol("C09", "bundle re-opened through a symbolic link answers a lookup differently (relative to the directory it was opened in): "+d, tieSig(obs0)...))
+						}
+					}
+					os.Remove(via)
+				}
 				if d := diffTree(tree0, treeOf(target)); d != "" {
 					c.Viol = append(c.Viol, viol("C09", "opening the bundle changed its directory: "+d))
 				}
